@@ -25,9 +25,9 @@ static json_t *jwt_base64uri_decode_to_json(char *src)
 	if (buf == NULL)
 		return NULL; // LCOV_EXCL_LINE
 
-	buf[len] = '\0';
-
-	js = json_loads(buf, 0, NULL);
+	/* Parse all of the decoded bytes: an embedded nil must not end the
+	 * document early. */
+	js = json_loadb(buf, len, 0, NULL);
 
 	jwt_freemem(buf);
 
